@@ -32,6 +32,15 @@ Theorem C05_recover_step : forall f s tip h k, Inv s tip -> nonneg_work s -> s_i
   fst (add f (crash_state f s h k) h) = fst (add f s h).
 Proof. exact recover_step. Qed.
 
+(* the same at the granularity of committed SQLite transactions (k commits succeed, every later one is refused) *)
+Theorem C05_valid_everywhere_commits : forall f s tip h k, Inv s tip -> s_id h <> 0%N ->
+  exists tip', Inv (commit_crash_state f s h k) tip'.
+Proof. exact commit_crash_inv. Qed.
+
+Theorem C05_recover_step_commits : forall f s tip h k, Inv s tip -> nonneg_work s -> s_id h <> 0%N ->
+  fst (add f (commit_crash_state f s h k) h) = fst (add f s h).
+Proof. exact commit_recover_step. Qed.
+
 (* kill at ANY write k of ANY header i of ANY history, restart, re-deliver the whole history:
    the final store is exactly that of the uninterrupted run - it never remains stuck *)
 Theorem C05_recover : forall f gid gpl hs i k, gid <> 0%N -> nonzero_ids hs ->
@@ -47,5 +56,7 @@ Print Assumptions C05_reachable_valid.
 Print Assumptions C05_valid_everywhere.
 Print Assumptions C05_acked_persist.
 Print Assumptions C05_recover_step.
+Print Assumptions C05_valid_everywhere_commits.
+Print Assumptions C05_recover_step_commits.
 Print Assumptions C05_recover.
 Print Assumptions C05_restart_noop.
